@@ -15,7 +15,7 @@ import (
 func init() {
 	register(Property{
 		ID:          "C04",
-		Explanation: "Decided statically, exhaustively over the library: A2 every source of schedule-dependent order (range over a map, sync.Map.Range, reflect MapKeys/MapRange, maps.Keys/Values/All not directly under slices.Sorted, select, go statements, time, rand) is enumerated and must match an order-insensitive idiom that is verified structurally - I1 collect-then-sort (the loop only appends to a slice that is sorted before its first use on every path), I2 slices.Sorted(maps.Keys(m)), I3 only keyed stores/deletes whose key is the iteration key or the element itself, I4 flag loops (the only exits are under `key == <loop-invariant>`, all other assignments are constants), I5 per-element independent effects (calls whose operands derive from the element only, no loop-carried variable) - or a frozen exception with a written reason and a side condition that is itself checked on every run. An order source that matches nothing is 'undecided' and fails the check. R2 entrypoint order: in Load every store into the root-module / direct-package sets precedes every call of the registering closure (so 'local' never depends on which entrypoint came first), and the loops over the entrypoints only perform keyed stores. A2 accepts a sort only when it orders the elements by their own value (sort.Strings, slices.Sort/Sorted, the natural comparison spelled out): a custom comparator leaves ties in map order and keys such as token.Pos depend on the parse schedule. R3 own-output feedback - every method-set query (NumMethods/Method, NewMethodSet, LookupFieldOrMethod, Implements, MethodsOf) in a generator package is an obligation, because the generators add methods to the package they process and the next run type-checks the package with that output (one known finding: the deepcopy field helper). A2 also: every call evaluated inside a keyed-store loop over an unordered source must be order-free (no dynamic call, nothing concurrent, writes only to own locals, stateless library callees) - a keyed store is order-insensitive only if computing the stored value is. R4 package-level tags are merged over every file of the package (C06.R3), so the files a run adds do not change what the next run reads. R3 has one discharging idiom (ownOutputOverride): queries on one type variable in one loop bounded by the type's own methods, which only writes fields of one local record; an own-package flag defined once by the path comparison; every read of a scanned field after the loop is reached only through an overwrite that mentions neither a scanned field nor a query, or over an edge on which the flag is false or the type is an interface. R5/R6: the sums are recorded only by a complete run and written by nothing but Save (C02.R4/R5, C08.R2). NOT decided: that a second run changes nothing in general (generated files are themselves input of the next run and hashed into gengo.sum; R3 decides the one structural way a generator can see its own output, the method set); byte equality across process restarts beyond A2 (environmental inputs such as go list output are trusted).",
+		Explanation: "Decided statically, exhaustively over the library: A2 every source of schedule-dependent order (range over a map, sync.Map.Range, reflect MapKeys/MapRange, maps.Keys/Values/All not directly under slices.Sorted, select, go statements, time, rand) is enumerated and must match an order-insensitive idiom that is verified structurally - I1 collect-then-sort (the loop only appends to a slice that is sorted before its first use on every path), I2 slices.Sorted(maps.Keys(m)), I3 only keyed stores/deletes whose key is the iteration key or the element itself, I4 flag loops (the only exits are under `key == <loop-invariant>`, all other assignments are constants), I5 per-element independent effects (calls whose operands derive from the element only, no loop-carried variable) - or a frozen exception with a written reason and a side condition that is itself checked on every run. An order source that matches nothing is 'undecided' and fails the check. R2 entrypoint order: in Load every store into the root-module / direct-package sets precedes every call of the registering closure (so 'local' never depends on which entrypoint came first), and the loops over the entrypoints only perform keyed stores. A2 accepts a sort only when it orders the elements by their own value (sort.Strings, slices.Sort/Sorted, the natural comparison spelled out): a custom comparator leaves ties in map order and keys such as token.Pos depend on the parse schedule. R3 own-output feedback - every method-set query (NumMethods/Method, NewMethodSet, LookupFieldOrMethod, Implements, MethodsOf) in a generator package is an obligation, because the generators add methods to the package they process and the next run type-checks the package with that output (one known finding: the deepcopy field helper). A2 also: every call evaluated inside a keyed-store loop over an unordered source must be order-free (no dynamic call, nothing concurrent, writes only to own locals, stateless library callees) - a keyed store is order-insensitive only if computing the stored value is. R4 package-level tags are merged over every file of the package (C06.R3), so the files a run adds do not change what the next run reads. R3 has one discharging idiom (ownOutputOverride): queries on one type variable in one loop bounded by the type's own methods, which only writes fields of one local record; an own-package flag defined once by the path comparison; every read of a scanned field after the loop is reached only through an overwrite that mentions neither a scanned field nor a query, or over an edge on which the flag is false or the type is an interface. R5/R6: the sums are recorded only by a complete run and written by nothing but Save (C02.R4/R5, C08.R2). NOT decided: that a second run changes nothing in general (generated files are themselves input of the next run and hashed into gengo.sum; R3 decides the one structural way a generator can see its own output, the method set); byte equality across process restarts beyond A2 (environmental inputs such as go list output are trusted). Round 8: R7 = C07.A1/R2 (nothing outside the inventory of file effects touches the file system, so the hashed directories change only through the writer and the stale-output removal).",
 		Assumptions: append([]string{"the go command / go/packages return the same package graph for the same module contents", "log output on stdout (ordered by time and generator order) is not part of the generated files"}, commonAssumptions...),
 		Run:         runC04,
 	})
